@@ -104,7 +104,7 @@ func (s *sortedSet[ElementType, WeightType]) addSorted(element ElementType) {
 	if listElement, created := s.elements.GetOrCreate(element, func() *sortedSetElement[ElementType, WeightType] {
 		return newSortedSetElement(element, s)
 	}); created {
-		listElement.unsubscribeFromWeightUpdates = s.weightVariable(element).OnUpdate(func(_ WeightType, newWeight WeightType) {
+		unsubscribeFromWeightUpdates := s.weightVariable(element).OnUpdate(func(_ WeightType, newWeight WeightType) {
 			// only lock if this is not the initial update
 			if listElement.unsubscribeFromWeightUpdates != nil {
 				s.mutex.Lock()
@@ -121,6 +121,10 @@ func (s *sortedSet[ElementType, WeightType]) addSorted(element ElementType) {
 
 			s.updatePosition(listElement)
 		}, true)
+
+		verifSortedSetAddWindow()
+
+		listElement.unsubscribeFromWeightUpdates = unsubscribeFromWeightUpdates
 	}
 }
 
